@@ -219,6 +219,7 @@ package action
 //@ func (*Rollback).performRollback
 //@   props C06
 //@   requires r != nil && cfgReady(r.cfg) && ledgerWF() && currentRelease != nil && currentRelease.Info != nil && targetRelease != nil && targetRelease.Info != nil && hooksNonNil(targetRelease.Hooks)
+//@   requires [C09] [revision-record-created-before-any-mutation] r.DryRun || Dex[mkkey(targetRelease.Name, targetRelease.Version)]
 //@   ensures [dry-run-no-cluster-mutation] old(r.DryRun) ==> Kmutated == old(Kmutated)
 //@   ensures [dry-run-no-storage-write] old(r.DryRun) ==> Dwritten == old(Dwritten)
 //@   ensures [selector-unchanged] r.DryRun == old(r.DryRun)
@@ -319,6 +320,7 @@ package action
 //@ func (*Install).performInstall
 //@   props C03 C12
 //@   requires i != nil && cfgReady(i.cfg) && rel != nil && rel.Info != nil && hooksNonNil(rel.Hooks)
+//@   requires [C09] [revision-record-created-before-any-mutation] Dex[mkkey(rel.Name, rel.Version)]
 //@   ensures [C12] [pre-hook-failure-touches-no-release-resource] at "failed pre-install" (KtouchedLists[resources] ==> old(KtouchedLists)[resources]) && (KtouchedLists[toBeAdopted] ==> old(KtouchedLists)[toBeAdopted]) && result1 != nil
 //@   ensures [C12] [post-hook-failure-fails-the-operation] at "failed post-install" result1 != nil
 //@   ensures [success-marks-deployed] result1 == nil ==> result0 == rel && rel.Info.Status == "deployed"
@@ -366,6 +368,7 @@ package action
 //@   props C03
 //@   trusted
 //@   requires i != nil && cfgReady(i.cfg) && rel != nil && rel.Info != nil
+//@   requires [C09] [revision-record-created-before-any-mutation] Dex[mkkey(rel.Name, rel.Version)]
 //@   ensures [returns-the-release] result0 == rel && rel.Info == old(rel.Info) && rel.Name == old(rel.Name) && rel.Version == old(rel.Version)
 //@   ensures [ledger-kept] Dex == old(Dex) && Dname == old(Dname) && Dver == old(Dver)
 //@   ensures [config-kept] i.cfg == old(i.cfg) && i.cfg.KubeClient == old(i.cfg.KubeClient) && i.cfg.Releases == old(i.cfg.Releases) && i.cfg.Releases.Driver == old(i.cfg.Releases.Driver)
@@ -420,6 +423,7 @@ package action
 //@   props C03 C01
 //@   requires u != nil && cfgReady(u.cfg) && ledgerWF() && upgradedRelease != nil && upgradedRelease.Info != nil && hooksNonNil(upgradedRelease.Hooks) && originalRelease != nil && originalRelease.Info != nil && originalRelease != upgradedRelease && originalRelease.Info != upgradedRelease.Info
 //@   requires [distinct-revisions] mkkey(originalRelease.Name, originalRelease.Version) != mkkey(upgradedRelease.Name, upgradedRelease.Version)
+//@   requires [C09] [revision-record-created-before-any-mutation] Dex[mkkey(upgradedRelease.Name, upgradedRelease.Version)]
 //@   ensures [reports-once] nsent(c) == old(nsent(c)) + 1
 //@   ensures [reports-the-new-revision] sent(c).r == upgradedRelease
 //@   ensures [failure-marks-failed] sent(c).e != nil && !old(u.Atomic) ==> upgradedRelease.Info.Status == "failed"
